@@ -1,8 +1,9 @@
 (* C03 — FrontISTR control (.cnt) write -> read keeps the analysis conditions.
    Statements only (proofs in Proofs*.v). *)
-From Coq Require Import String Ascii List Bool ZArith Permutation.
+From Coq Require Import String Ascii List Bool ZArith Permutation QArith.
 From FV.C01 Require Import Str Dec.
 From FV.C03 Require Import Model ProofsRows ProofsText ProofsGroup.
+From FV.C03 Require Fmt.
 Import ListNotations.
 Local Open Scope string_scope.
 
@@ -92,3 +93,38 @@ Proof. vm_compute. reflexivity. Qed.
 
 Print Assumptions C03_cnt_roundtrip.
 Print Assumptions C03_group_expansion.
+
+(* ------------------------------------------------------------------ *)
+(* "to the precision the writer emits": the digits of "%.<k>E" (k = 5 for
+   !BOUNDARY, 6 for !SPRING / !CLOAD, 12 for !FIXTEMP / !CFLUX) of a positive
+   finite binary64 m * 2^e are exactly k+1 significant digits N with decimal
+   exponent E, and the decimal N * 10^(E-k) written to the file differs from
+   the value by at most half a unit of its last digit ... *)
+Theorem C03_fmt_digits_within_half_ulp :
+  forall k m e N E, Fmt.fmt_E k m e = Some (N, E) ->
+  (10 ^ k <= N < 10 ^ (k + 1))%Z /\
+  (inject_Z N * Fmt.ulp (E - k) - Fmt.value m e <= (1 # 2) * Fmt.ulp (E - k))%Q /\
+  (Fmt.value m e - inject_Z N * Fmt.ulp (E - k) <= (1 # 2) * Fmt.ulp (E - k))%Q.
+Proof. exact Fmt.fmt_E_correct. Qed.
+
+(* ... hence by at most 10^-k / 2 relative to the written decimal: k+1
+   significant digits (6, 7, 13) *)
+Theorem C03_fmt_relative_precision :
+  forall k m e N E, Fmt.fmt_E k m e = Some (N, E) ->
+  let p := (inject_Z N * Fmt.ulp (E - k))%Q in
+  (p - Fmt.value m e <= (1 # 2) * (p / inject_Z (10 ^ k)))%Q /\
+  (Fmt.value m e - p <= (1 # 2) * (p / inject_Z (10 ^ k)))%Q.
+Proof. exact Fmt.fmt_E_relative. Qed.
+
+(* non-vacuity: 1/3 = 6004799503160661 * 2^-54, a tie (2.5 -> 2E+00, half to even at
+   k = 0), a carry into the next decade (9.999995 at 5 digits), the smallest subnormal *)
+Example C03_example_fmt :
+  Fmt.fmt_E 5 6004799503160661 (-54) = Some (333333, -1)%Z /\
+  Fmt.fmt_E 0 5 (-1) = Some (2, 0)%Z /\
+  Fmt.fmt_E 5 5629497285802557 (-49) = Some (100000, 1)%Z /\
+  Fmt.fmt_text 12 false 1 (-1074) = "4.940656458412E-324" /\
+  Fmt.fmt_text 6 true 0 0 = "-0.000000E+00".
+Proof. vm_compute. repeat split. Qed.
+
+Print Assumptions C03_fmt_digits_within_half_ulp.
+Print Assumptions C03_fmt_relative_precision.
